@@ -15,7 +15,9 @@
 (*   model  the model's decoder, run on the octets the code wrote, yields what was sent       *)
 EXTENDS ZmtpCore, TLC, Json, IOUtils
 
-Cases == JsonDeserialize(IOEnv.CASES)
+\* the case file is parsed once (TLC re-evaluates a definition over IOEnv at every use)
+ASSUME TLCSet(1, JsonDeserialize(IOEnv.CASES))
+Cases == TLCGet(1)
 
 RECURSIVE EncItems(_, _), ExpGot(_, _), ExpMsgs(_, _)
 EncItems(its, i) ==
